@@ -46,6 +46,20 @@ Theorem C09_merge_winner_minimal : forall items n x,
 Proof. exact merge_winner_minimal. Qed.
 Print Assumptions C09_merge_winner_minimal.
 
+(* ... and every such definition does win in some order (visit it first): minimal_set is exactly the set of
+   answers the nondeterministic code can give; with a least owner it is that owner alone *)
+Theorem C09_merge_minimal_reachable : forall n l x,
+  NoDup (map gv_file l) -> In x l -> (forall w, In w l -> beats w x = false) ->
+  exists l', Permutation l l' /\ winner (merge (map (fun v => (n, v)) l')) n = Some x.
+Proof. exact merge_minimal_reachable. Qed.
+Print Assumptions C09_merge_minimal_reachable.
+
+Theorem C09_minimal_set_least : forall items n x,
+  NoDup (map gv_file (vars_of n items)) -> least (vars_of n items) x ->
+  forall w, In w (minimal_set (vars_of n items)) <-> w = x.
+Proof. exact minimal_set_least_items. Qed.
+Print Assumptions C09_minimal_set_least.
+
 (* a.lua and b.lua both define g at top level on line 1: the first file visited wins *)
 Definition n_g : list N := [103].
 Definition v_a : gvar := mk_gvar [97; 46; 108; 117; 97] 0 0 1.    (* a.lua, funcLv 0, scopeLv 0, line 1 *)
